@@ -22,7 +22,7 @@ from lib.common import InfraError, findings_for, log, sha, tlc
 from props import vmd_lib as L
 from props.vmd_lib import V
 
-TEMPLATES = ["zero", "one", "tail", "many", "big", "heap", "rtfail", "assertfail", "exitcode"]
+TEMPLATES = sorted({t for ts in L.SHAPES.values() for t in ts})
 
 
 def model(ctx, quick, out):
@@ -33,6 +33,9 @@ def model(ctx, quick, out):
             raise InfraError("Vmd (C17 configuration) violates %s:\n%s" % (main.violated, "\n".join(main.trace[-2:])[-3000:]))
         lazy = tlc(ctx, "Vmd", "Vmd_crc_lazy", workers=2, timeout=600)
         eager = tlc(ctx, "Vmd", "Vmd_crc_eager", workers=2, timeout=600)
+        noflush = tlc(ctx, "Vmd", "Vmd_c17_noflush", workers=2, timeout=600)
+        if noflush.violated != "Transparency":
+            raise InfraError("Vmd_c17_noflush (flush only on the success path) no longer violates Transparency (got %r)" % noflush.violated)
         if lazy.violated != "NoCrcRace":
             raise InfraError("Vmd_crc_lazy no longer exhibits the first-use race (got %r)" % lazy.violated)
         if eager.violated:
@@ -42,7 +45,7 @@ def model(ctx, quick, out):
             live = tlc(ctx, "Vmd", "Vmd_c17_live", timeout=3000)
             if live.violated:
                 raise InfraError("Vmd_c17_live violates %s" % live.violated)
-        out.update(main=main, lazy=lazy, eager=eager, live=live)
+        out.update(main=main, lazy=lazy, eager=eager, live=live, noflush=noflush)
     except Exception as e:
         out["error"] = e
 
@@ -117,7 +120,10 @@ def replay_rounds(ctx, bench, variant, rounds, findings, stats, yield_seed, tag,
                               env=ctx.env({"TSAN_OPTIONS": "halt_on_error=0:exitcode=0:history_size=7"}),
                               log=os.path.join(work, "daemon.%d.err" % i))
             rng = random.Random(rd["seed"])
-            groups = make_groups(bench, rd["scens"], rng, 1, cli_share=0.0 if sync else 0.5)
+            if rd.get("sweep"):
+                groups = [L.sweep_clients(bench, rng)]
+            else:
+                groups = make_groups(bench, rd["scens"], rng, 1, cli_share=0.0 if sync else 0.5)
             flat, obs = L.play_round(bench, dm, groups, rng, work, sync_payload=sync)
             spec = dict(prop="C17", kind="round", variant=variant, yield_seed=yield_seed, round=rd, sync=sync, fresh=fresh_each)
             stats["rounds"] += 1
@@ -224,6 +230,9 @@ def run(ctx):
     else:
         rounds = [dict(scens=[s], seed=rng.getrandbits(31)) for s in scens] + pick_rounds(scens, rng, 0, 24, 21)   # .. 63 clients
     bench.preload(TEMPLATES, range(1, (9 if quick else 63) + 1))
+    # every corpus module (all shapes: no / one / many lines, big, partial last line with normal end and with a
+    # run-time error, failing, non-zero exit) through both client kinds, in both stages and in the trace stage
+    rounds = [dict(sweep=True, seed=rng.getrandbits(31))] + rounds + [dict(sweep=True, seed=rng.getrandbits(31))]
     half = len(rounds) // 2
     replay_rounds(ctx, bench, "plain", rounds[:half], findings, stats, yield_seed=ctx.seed * 7919 + 1, tag="plainA")
     replay_rounds(ctx, bench, "plain", rounds[half:], findings, stats, yield_seed=0, tag="plainB")
@@ -248,7 +257,7 @@ def run(ctx):
     except ImportError:
         vmd_trace = None
     if bench.traced and vmd_trace:
-        trounds = pick_rounds(scens, rng, 10 if quick else 80, 2 if quick else 10, 3)
+        trounds = [dict(sweep=True, seed=rng.getrandbits(31))] + pick_rounds(scens, rng, 10 if quick else 80, 2 if quick else 10, 3)
         vmd_trace.validate(ctx, bench, "C17", trounds, findings, stats, traces, yield_seed=ctx.seed + 3)
     else:
         ctx.assumptions.append("H4 session events not compiled into this tree: no trace validation")
@@ -271,6 +280,7 @@ def run(ctx):
         model=dict(cfg=main.__dict__.get("cfg", "Vmd_c17" if quick else "Vmd_c17_full"), depth=main.depth,
                    crc_lazy=dict(violated=mres["lazy"].violated, states=mres["lazy"].distinct, trace_len=len(mres["lazy"].trace)),
                    crc_eager=dict(violated=mres["eager"].violated, states=mres["eager"].distinct),
+                   flush_only_on_success=dict(violated=mres["noflush"].violated, states=mres["noflush"].distinct),
                    liveness=(dict(states=mres["live"].distinct, properties="GoodServed AllEnd") if mres.get("live") else "thorough tier only")),
         protocol_constants={k: v for k, v in bench.P.items() if k != "known_types"},
         samples=stats["samples"][:4],
